@@ -631,6 +631,13 @@ class StmtMixin:
             ty = ptypes.get(nm)
             if ty is None:
                 raise Unsupported(f"no sort declared for parameter {nm}")
+            if isinstance(ty, tuple) and ty[0] == "iter":
+                # an iterator parameter: the underlying sequence and the position reached so far (0 <= pos <= len)
+                sq = Val(z3.Const(f"p_{nm}", sort_of(("seq", ty[1]))), ("seq", ty[1]))
+                pos = z3.Const(f"p_{nm}_pos", I)
+                st.conds.append(z3.And(pos >= 0, pos <= z3.Length(sq.t)))
+                st.env[nm] = Val(None, "iter", (sq, pos))
+                continue
             v = Val(z3.Const(f"p_{nm}", sort_of(ty)), ty)
             st.env[nm] = v
             if is_ref(ty):
